@@ -275,7 +275,7 @@ def run(ctx):
     for sc in scopes:
         small = dict(sc, MaxLen=min(sc["MaxLen"], 3 if sc["Comp"] == 1 else 2))
         cfg = tlc.make_cfg(constants=small, spec="Spec", invariants=["ExactlyOnce", "OrderIndependent"], properties=["Terminates"])
-        r = tlc.run("SvdQn", cfg, timeout=3000)
+        r = tlc.run("SvdQn", cfg, vacuity=True, timeout=3000)
         ctx.add_tlc(r, f"SvdQn sector loop {small}")
         if r["violated"]:
             ctx.violation(f"C18:spec:SvdQn:{r['violated']}", "SvdQn violates " + r["violated"], {"tlc": r.get("error_text", "")[:2000]})
